@@ -23,6 +23,22 @@ Theorem igeos_conservation :
 Proof. exact igeos_conservation_proof. Qed.
 Print Assumptions igeos_conservation.
 
+
+(* the same statement with the pattern chosen by the driver's own if/elif chain: no hypothesis on the side of the star pressure
+   is left (it is theorem igeos_classification_admissible of C17) *)
+Theorem igeos_conservation_classified :
+  forall (pl rl ul gl pr rr ur gr px xd0 t xa xb : R) (c : comp),
+    0 < pl -> 0 < rl -> 1 < gl -> 0 < pr -> 0 < rr -> 1 < gr -> 0 < px -> 0 < t ->
+    ~ (pr = pl /\ ur = ul /\ rr = rl) ->
+    let pat := ig_classify pl rl ul gl pr rr ur gr in
+    pat <> RCVCR ->
+    ig_call pl rl ul gl pr rr ur gr pat px = 0 ->
+    List.Forall (fun Xw => xa <= Xw <= xb) (ig_Xregs pl rl ul gl pr rr ur gr pat px xd0 t) ->
+    is_RInt (sol_dens pl rl ul gl pr rr ur gr px xd0 t c pat) xa xb
+            (balance pl rl ul gl pr rr ur gr xd0 t xa xb c).
+Proof. exact igeos_conservation_classified_proof. Qed.
+Print Assumptions igeos_conservation_classified.
+
 Theorem conservation_chain :
   forall (ps : list piece) (q0 : piece) (xa xb : R),
     chain q0 ps xa xb -> is_RInt (asm q0 ps) xa xb (pH (last_piece q0 ps) xb - pH q0 xa).
